@@ -1011,6 +1011,14 @@ def run(program, rep, tier):
     analyse_writers(program, rep)
     check_readers(program, rep)
     check_fresh_id(program, rep)
+    # entity_exists / entities subtract the pending set: a mark must not
+    # outlive the row it refers to (C05's discipline of the pending set)
+    from rules import c05
+    rep.borrow(c05.run, program, rep, 'quick',
+               keep=lambda o: o.rule in ('C05.subset', 'C05.mark'),
+               rename=lambda r: 'C01.pending-' + r.split('.')[1],
+               why='a stale pending mark makes entity_exists / entities deny '
+               'an entity that owns components (e.g. after its id is reused)')
     # "exactly one pair per attached component": the subclass walk behind
     # get(T) visits each type once (C06's rule for the walk of get)
     from rules import c06
